@@ -433,6 +433,10 @@ func normKey(s string) string {
 func (r *vrec) guard(desc any, fn func()) (ok bool) {
 	defer func() {
 		if p := recover(); p != nil {
+			if _, stop := p.(stopCase); stop {
+				ok = false
+				return // the case already recorded its violation
+			}
 			buf := make([]byte, 16384)
 			n := runtime.Stack(buf, false)
 			msg := fmt.Sprint(p)
